@@ -6,7 +6,7 @@ Never run two of these (or any other check) at the same time: /repo is patched w
 import sys, os, json, subprocess, re
 VERIF = os.path.dirname(os.path.dirname(os.path.abspath(__file__)))
 sys.path.insert(0, os.path.join(VERIF, "bin"))
-RELATED = {"C01": ["C01"], "C02": ["C02", "C07"], "C03": ["C03", "C04", "C09"], "C04": ["C04", "C09"], "C05": ["C05", "C12", "C11", "C01"], "C06": ["C06", "C01"], "C07": ["C07"],
+RELATED = {"C01": ["C01"], "C02": ["C02", "C09"], "C03": ["C03", "C10"], "C04": ["C04", "C09"], "C05": ["C05", "C12", "C11", "C01"], "C06": ["C06", "C01"], "C07": ["C07"],
            "C08": ["C08"], "C09": ["C09", "C04"], "C10": ["C10", "C04", "C01"], "C11": ["C11", "C05", "C12"], "C12": ["C12", "C05", "C06"], "C13": ["C13", "C12", "C05"],
            "C14": ["C14", "C16"], "C15": ["C15"], "C16": ["C16"], "C17": ["C17", "C01"], "C18": ["C18"], "C19": ["C19"], "C20": ["C20"]}
 wt = sys.argv[1]
